@@ -1428,7 +1428,10 @@ class DependencyMapper(CombineMapper[R, Never, []]):
         return self.combine(frozenset([expr]), super().map_data_wrapper(expr))
 
     def map_size_param(self, expr: SizeParam) -> R:
-        return frozenset([expr])
+        # through combine(), like every other node: subclasses filter there
+        # (SubsetDependencyMapper must not report a size parameter that is
+        # not in its universe)
+        return self.combine(frozenset([expr]))
 
     @override
     def map_stack(self, expr: Stack) -> R:
